@@ -41,6 +41,8 @@ fn engines() -> Vec<Box<dyn Engine>> {
     v.push(Box::new(eng_src::SrcEngine::default()));
     v.push(Box::new(eng_dir::DirEngine::default()));
     v.push(Box::new(eng_cell::CellEngine::default()));
+    v.push(Box::new(eng_hrlive::HrLiveEngine));
+    v.push(Box::new(eng_idle::IdleEngine));
     v
 }
 
